@@ -830,6 +830,7 @@ class ImplSpec:
         self.loops = {}
         self.rewrites = []
         self.silent = []
+        self.frames = []      # (fn, field, type): by-value method must leave this cell field untouched
         self.trusted = set()
         self.skipfn = set()
         self.subst = []
@@ -1255,7 +1256,32 @@ def extract_impl(path, header_lit, macro, args, handle, spec, stats, canary):
                 raise ExtractError("silent: fn-level where not supported")
             silent_out.append("%s%s%s\n{%s}\n" % (sig, wh, ("\n  requires %s," % sreq) if sreq else "", b))
             stats["silent_obligations"] += 1
-    for fname in list(spec.fn) + [s[0] for s in spec.silent] + list(spec.trusted):
+        for (fname, field, fty) in spec.frames:
+            if fname != it["name"]:
+                continue
+            # FRAME obligation: a by-value method consumes `self`, so what it does to a shared cell it
+            # holds leaves no trace in a postcondition; the body is emitted once more as a free
+            # function that hands the cell field back, and must leave it exactly as it was
+            sig = drop_attrs_and_docs(it["sig"])
+            if not re.search(r"\(\s*(mut\s+)?self\s*[,)]", sig):
+                raise ExtractError("@@frame %s: not a by-value method" % fname)
+            sig = re.sub(r"\(\s*(mut\s+)?self\s*([,)])", r"(self_: %s\2" % selfty.replace("\\", "\\\\"), sig, count=1)
+            sig = re.sub(r"\bfn\s+%s\b" % fname, "fn frame__%s__%s" % (re.sub(r"\W+", "_", selfty)[:40], fname), sig)
+            if "->" in sig:
+                raise ExtractError("@@frame %s: method returns a value" % fname)
+            if re.search(r"fn\s+\w+\s*<", sig):
+                sig = re.sub(r"(fn\s+\w+\s*)<", r"\1<%s, " % gen, sig, count=1)
+            else:
+                sig = re.sub(r"(fn\s+\w+)", r"\1<%s>" % gen, sig, count=1)
+            sig = sig.rstrip() + " -> (r: %s)" % fty
+            b = replace_self(rewrite_map_or(it["body"], stats))
+            sig, b = normalize_params(sig, b, stats)
+            wh = ("\nwhere " + where) if where else ""
+            body_ = "\n    let mut self_ = self_;\n    let unit_: () = {%s};\n    self_.%s\n" % (b, field)
+            pre_ = "self_.wf()" if not handle else "self_.hwf()"
+            silent_out.append("%s%s\n  requires %s,\n  ensures r == self_.%s,\n{%s}\n" % (sig, wh, pre_, field, body_))
+            stats["silent_obligations"] += 1
+    for fname in list(spec.fn) + [s[0] for s in spec.silent] + [s[0] for s in spec.frames] + list(spec.trusted):
         if fname not in seen:
             raise ExtractError("method %s not found in impl %s" % (fname, header_lit))
     out.append("}\n")
@@ -1457,6 +1483,10 @@ def generate(template_path, variant, canary=False):
                     rest_ = l.split("::", 1)[1]
                     old, new = rest_.split("==>", 1)
                     spec.rewrites.append((fname, old.strip(), new.strip()))
+                    i += 1
+                elif t[0] == "@@frame":
+                    # @@frame <fn> <field> <FieldType...>
+                    spec.frames.append((t[1], t[2], l.split(None, 3)[3].strip()))
                     i += 1
                 elif t[0] == "@@silent":
                     spec.silent.append((t[1], l.split(None, 2)[2].strip() if len(t) > 2 else "MutedObserver"))
